@@ -440,6 +440,14 @@ pub fn bfs_check<const N: usize>(prop: &str, o: &Opts, rep: &mut Report) {
             "C01" => {
                 probes.push(Act::IntoIter(Script::all_front(st.len + 1)));
                 probes.push(Act::IntoIter(Script::all_back(st.len + 1)));
+                // "any argument": drains over ranges the documentation rejects (inverted, beyond the length, every
+                // bound kind) must not go through and rearrange the contents
+                for rs in all_ranges(N) {
+                    if rs.resolve(st.len).is_err() {
+                        probes.push(Act::Drain(rs, Script::empty(), Fin::Drop));
+                        probes.push(Act::Drain(rs, Script::all_front(1), Fin::Drop));
+                    }
+                }
             }
             "C11" => {
                 probes.extend(observers(N, st.len, true));
